@@ -130,7 +130,7 @@ func encChecksScalar(g *groups.G, v kyber.Scalar) []string {
 func runC03(c *kc.Ctx) {
 	defer reportHungProbes(c)
 	c.SetRule("cases: every point/scalar variable left by random programs (non-normalised internal coordinates), plus identity, base, edge scalars 0,1,q-1 and values with leading zero bytes; each goes through MarshalBinary/UnmarshalBinary/MarshalTo/UnmarshalFrom/hex helpers; pairs are checked for Equal ⇔ identical bytes; non-trivial = value is not the identity/zero; distinct by (group, encoding)")
-	c.Assume("internal/protobuf and fixbuf are not modelled", "BLS12-381 G2/GT, BN G2/GT and residue encodings have no Lean model yet: checked for self-consistency and cross-backend agreement (C18)")
+	c.Assume("internal/protobuf and fixbuf are not modelled", "BLS12-381 G2 and all GT encodings have no Lean model: checked for self-consistency and cross-backend agreement (C18)")
 	nProg := c.N(16, 300)
 	plen := c.N(12, 30)
 	type mc struct {
